@@ -2,7 +2,7 @@
    itself.  This is where round32 (widen32 w) = w (binary32 -> binary64 -> binary32 is exact)
    is needed. *)
 From Coq Require Import List ZArith Bool Lia.
-From TskVerif Require Import Base.Common C12.Model C12.BytesProofs C12.RoundTripProofs C12.ValidProofs.
+From TskVerif Require Import Base.Common C12.Model C12.BytesProofs C12.Unfold C12.RoundTripProofs C12.ValidProofs.
 Import ListNotations.
 Open Scope Z_scope.
 
